@@ -37,6 +37,16 @@ class H:
             subs = [zsum(xs[i] for i in S) for S in itertools.combinations(range(L), ks)]
             conj.append(('ksmallest:%d' % kk, zeq_(val(O.MaximizeKSmallestSums(kk)), -zmin(subs))))
             conj.append(('klargest:%d' % kk, zeq_(val(O.MinimizeKLargestSums(kk)), zmax(subs))))
+        if L >= 2 and not flag:
+            # one objective OBJECT used on several vectors in a row (a shorter one first): the value must not depend on that history
+            for kk in range(1, L + 2):
+                ks = min(kk, L)
+                subs = [zsum(xs[i] for i in S) for S in itertools.combinations(range(L), ks)]
+                small = O.MaximizeKSmallestSums(kk); large = O.MinimizeKLargestSums(kk)
+                for o in (small, large):
+                    o.value_to_minimize(present(self.cont, v[:1])[0]); o.value_to_minimize(present(self.cont, v[:L - 1])[0])
+                conj.append(('ksmallest:%d after shorter vectors' % kk, zeq_(small.value_to_minimize(s), -zmin(subs))))
+                conj.append(('klargest:%d after shorter vectors' % kk, zeq_(large.value_to_minimize(s), zmax(subs))))
         n = 0
         if not flag:
             for w in WEIGHTS[L]:
